@@ -193,7 +193,7 @@ func (rm *ResponseManager) PauseResponse(ctx context.Context, requestID graphsyn
 // CancelResponse cancels an in progress response
 func (rm *ResponseManager) CancelResponse(ctx context.Context, requestID graphsync.RequestID) error {
 	response := make(chan error, 1)
-	err := rm.send(&errorRequestMessage{requestID, queryexecutor.ErrCancelledByCommand, response}, ctx.Done())
+	err := rm.send(&errorRequestMessage{"", requestID, queryexecutor.ErrCancelledByCommand, response}, ctx.Done())
 	if err != nil {
 		return err
 	}
@@ -250,20 +250,20 @@ func (rm *ResponseManager) FinishTask(task *peertask.Task, p peer.ID, err error)
 	}
 }
 
-// CloseWithNetworkError closes a request due to a network error
-func (rm *ResponseManager) CloseWithNetworkError(requestID graphsync.RequestID) {
+// CloseWithNetworkError closes the request of peer p due to a network error
+func (rm *ResponseManager) CloseWithNetworkError(p peer.ID, requestID graphsync.RequestID) {
 	done := make(chan error, 1)
-	_ = rm.send(&errorRequestMessage{requestID, queryexecutor.ErrNetworkError, done}, nil)
+	_ = rm.send(&errorRequestMessage{p, requestID, queryexecutor.ErrNetworkError, done}, nil)
 	select {
 	case <-rm.ctx.Done():
 	case <-done:
 	}
 }
 
-// TerminateRequest indicates a request has finished sending data and should no longer be tracked
-func (rm *ResponseManager) TerminateRequest(requestID graphsync.RequestID) {
+// TerminateRequest indicates the request of peer p has finished sending data and should no longer be tracked
+func (rm *ResponseManager) TerminateRequest(p peer.ID, requestID graphsync.RequestID) {
 	done := make(chan struct{}, 1)
-	_ = rm.send(&terminateRequestMessage{requestID, done}, nil)
+	_ = rm.send(&terminateRequestMessage{p, requestID, done}, nil)
 	select {
 	case <-rm.ctx.Done():
 	case <-done:
